@@ -217,6 +217,23 @@ static void abstract_key(struct model* m, char* buf, size_t cap) {
   for (int i = 0; i < K; i++) if (m->present[i]) o += snprintf(buf + o, cap - o, "%d=%d,", i, m->val[i]);
 }
 
+/* do two tables with the same bindings hold their keys in a different slot (= iteration) order? */
+static int slot_order_differs(var a, var b) {
+  var x = iter_init(a), y = iter_init(b);
+  size_t guard = 0;
+  while (x != Terminal && y != Terminal && guard++ < 64) {
+    if (key_index(x) != key_index(y)) return 1;
+    x = iter_next(a, x); y = iter_next(b, y);
+  }
+  return 0;
+}
+
+static const char* Lo(const char* oracle, var a, var b) {
+  static char buf[96];
+  snprintf(buf, sizeof buf, "%s/%s", oracle, slot_order_differs(a, b) ? "slot-order-differs" : "same-slot-order");
+  return L(buf);
+}
+
 static int check_eqhash(void) {
   /* hash is a function of the abstract value alone */
   char ak[256]; abstract_key(&MA, ak, sizeof ak);
@@ -235,9 +252,12 @@ static int check_eqhash(void) {
   R[2] = copy(TA);
   int bad = 0;
   if (hash(R[2]) != h) { vf_violation(L("copy-hash"), NULL, "hash(copy(t)) != hash(t)"); bad = 1; }
+  int soft = 0;   /* a violation that is recorded but does not make the state terminal (keeps the graph connected) */
   if (!bad && (!eq(R[2], TA) || !eq(TA, R[2]))) {
     /* feature: do the keys sit in different relative slot order in the two tables? */
-    vf_violation(L("copy-not-eq"), NULL, "eq(copy(t), t) is false for bindings {%s}", ak); bad = 1;
+    int d = slot_order_differs(R[2], TA);
+    vf_violation(Lo("copy-not-eq", R[2], TA), NULL, "eq(copy(t), t) is false for bindings {%s}", ak);
+    if (d) soft = 1; else bad = 1;
   }
   if (!bad && len(R[2]) != len(TA)) { vf_violation(L("copy-len"), NULL, "len(copy(t)) != len(t)"); bad = 1; }
   del(R[2]); R[2] = NULL;
@@ -246,8 +266,13 @@ static int check_eqhash(void) {
   R[2] = mk_table();
   for (int i = 0; i < K; i++) if (MA.present[i]) set(R[2], keyobj[i], valobj[MA.val[i]]);
   if (hash(R[2]) != h) { vf_violation(L("rebuild-hash"), NULL, "a table rebuilt with the same bindings {%s} hashes differently", ak); bad = 1; }
-  if (!bad && (!eq(R[2], TA) || !eq(TA, R[2]))) { vf_violation(L("rebuild-not-eq"), NULL, "a table rebuilt with the same bindings {%s} is not eq", ak); bad = 1; }
-  if (!bad && (neq(R[2], TA) || cmp(R[2], TA) != 0)) { vf_violation(L("rebuild-cmp"), NULL, "cmp of equal tables is not 0"); bad = 1; }
+  if (!bad && (!eq(R[2], TA) || !eq(TA, R[2]))) {
+    int d = slot_order_differs(R[2], TA);
+    vf_violation(Lo("rebuild-not-eq", R[2], TA), NULL, "a table rebuilt with the same bindings {%s} is not eq", ak);
+    if (d) soft = 1; else bad = 1;
+  }
+  else if (!bad && (neq(R[2], TA) || cmp(R[2], TA) != 0)) { vf_violation(Lo("rebuild-cmp", R[2], TA), NULL, "cmp of equal tables is not 0"); bad = 1; }
+  (void)soft;
   del_raw(R[2]); R[2] = NULL;
   return bad;
 }
